@@ -163,6 +163,11 @@ func (u *uploader) Run() error {
 	if telemetry.DisabledOnPlatform {
 		return nil
 	}
+	if mode, _ := u.dir.Mode(); mode == "off" {
+		// Telemetry is off: nothing may be written to the telemetry directory
+		// (findWork would create the upload directory).
+		return nil
+	}
 	todo := u.findWork()
 	ready, err := u.reports(&todo)
 	if err != nil {
